@@ -32,12 +32,12 @@ macro_rules | `(tactic| rel_close) => `(tactic| (apply RelS.liftI; first
     | exact nextIsBreakz_agree | exact nextIsZ_agree | exact nextIsFlow_agree | exact nextIsDigit_agree | exact nextIsAlpha_agree
     | exact nextCanBePlainScalar_agree _ | exact skipWhileNonBreakz_agree | exact skipWhileBlank_agree
     | exact fetchWhileIsAlpha_agree _ | exact skipWsToEol_agree _ (Or.inl rfl) | exact skipWsToEol_agree _ (Or.inr rfl)))
-macro_rules | `(tactic| rel_close) => `(tactic| (apply RelS.modS; intro s j; first | rfl | (split <;> rfl)))
+macro_rules | `(tactic| rel_close) => `(tactic| (apply RelS.modS; intro s j; first | rfl | (split <;> rfl) | (cases s; dsimp only; (repeat' split) <;> rfl)))
 
 macro "rel" : tactic => `(tactic|
   repeat' (first
     | rel_close
-    | (apply RelS.getS_bind; intro _ _; dsimp only)
+    | (guard_target = RelS (getS >>= _) (getS >>= _); apply RelS.getS_bind; intro _ _; try dsimp only)
     | apply RelS.bind
     | apply RelS.ite
     | intro _
